@@ -24,7 +24,14 @@ Variants == << [axis |-> "YX", ns |-> 1, dtype |-> "uint8", comp |-> "deflate", 
                [axis |-> "SYX", ns |-> 2, dtype |-> "int16", comp |-> "lzw", nodata |-> <<-3>>, chunks |-> <<16, 32>>, spill |-> 0, wpc |-> 1, pred |-> "2", bigtiff |-> FALSE, stats |-> TRUE],
                [axis |-> "YX", ns |-> 1, dtype |-> "float64", comp |-> "deflate", nodata |-> <<>>, chunks |-> <<48, 32>>, spill |-> 0, wpc |-> 1, pred |-> "on", bigtiff |-> TRUE, stats |-> FALSE],
                [axis |-> "YXS", ns |-> 4, dtype |-> "uint8", comp |-> "deflate", nodata |-> <<>>, chunks |-> <<0, 0>>, spill |-> 0, wpc |-> 1, pred |-> "2", bigtiff |-> FALSE, stats |-> FALSE, schunk |-> 2] >>
-WriteCases == {[h |-> s[1], w |-> s[2], blocks |-> b] @@ Variants[((s[1] + 3 * s[2] + Len(b) + b[1]) % Len(Variants)) + 1] @@ [vidx |-> k] : s \in Shapes, b \in BlockLists, k \in {0}}
+\* enough incompressible data per partition (several tiles of 16 KB against the file sink's 4096-byte minimum write) for a partition to
+\* spend more than one of its write credits before the sub-streams (levels / planes) are merged
+BigVariants == << [axis |-> "YX", ns |-> 1, dtype |-> "float32", comp |-> "zstd", nodata |-> <<>>, chunks |-> <<128, 128>>, spill |-> 5000, wpc |-> 2],
+                  [axis |-> "SYX", ns |-> 2, dtype |-> "float64", comp |-> "deflate", nodata |-> <<>>, chunks |-> <<64, 128>>, spill |-> 9000, wpc |-> 3],
+                  [axis |-> "YXS", ns |-> 3, dtype |-> "float32", comp |-> "zstd", nodata |-> <<>>, chunks |-> <<128, 64>>, spill |-> 20000, wpc |-> 2],
+                  [axis |-> "YX", ns |-> 1, dtype |-> "float64", comp |-> "lzw", nodata |-> <<>>, chunks |-> <<64, 64>>, spill |-> 4096, wpc |-> 1] >>
+BigCases == {[h |-> 200, w |-> 260, blocks |-> b] @@ BigVariants[k] @@ [vidx |-> 100 + k] : b \in {<<64, 32>>, <<64>>, <<32, 16>>}, k \in 1..Len(BigVariants)}
+WriteCases == BigCases \cup {[h |-> s[1], w |-> s[2], blocks |-> b] @@ Variants[((s[1] + 3 * s[2] + Len(b) + b[1]) % Len(Variants)) + 1] @@ [vidx |-> k] : s \in Shapes, b \in BlockLists, k \in {0}}
               \cup {[h |-> s[1], w |-> s[2], blocks |-> b] @@ Variants[k] @@ [vidx |-> k] : s \in {<<45, 70>>, <<1, 40>>, <<33, 17>>}, b \in {<<32, 16>>, <<16>>}, k \in 1..Len(Variants)}
 VARIABLE c
 Init == c \in {[k |-> b] : b \in BlockLists} \cup {[k |-> <<>>]}
